@@ -125,13 +125,18 @@ def filter_placement(ctx, clause):
         raise AnalysisError("FilterNamespacesTriplesYielder.yield_triples vanished")
     ev = Evaluator(ctx, max_depth=10)
     t_in, t_out, t_deep = ("s", "http://ignored.org/p", "o"), ("s", "http://kept.org/p", "o"), ("s", "http://ignored.org/deeper/p", "o")
-    env = {"self._actual_triple_yielder": {"yield_triples()": [t_in, t_out, t_deep]}, "self._namespaces_to_ignore": ["http://ignored.org/"]}
+    from ..rules.writer import _init_env
+    t_hash_in, t_hash_deep = ("s", "http://ignored.org/q", "o"), ("s", "http://ignored.org/voc#q", "o")
+    triples = [t_in, t_out, t_deep, t_hash_deep, t_hash_in]
+    init_args = {"actual_triple_yielder": {"yield_triples()": triples}, "namespaces_to_ignore": ["http://ignored.org/"]}
+    env = _init_env(ev, filt, {k: v for k, v in init_args.items() if k in init_f.params})      # whatever fields the constructor sets
     outs = ev.outcomes(yt, {}, env)
     got = [tuple(x) for x in outs[0][1]] if len(outs) == 1 and outs[0][0] == "return" and isinstance(outs[0][1], (list, tuple)) else None
-    ok = got == [t_out, t_deep]
+    ok = got == [t_out, t_deep, t_hash_deep]
     obs.append(Ob(clause, "R-PLUMB", "R-PLUMB|namespaces_to_ignore|filter-polarity", yt.loc(), ok,
                   "a triple passes the filter iff its predicate is not a direct child of an ignored namespace" if ok else
-                  "filter over (ignored, kept, one level deeper) lets pass %s, expected the last two" % (got if got is not None else outs,)))
+                  "filter over (direct child, other namespace, one level deeper, deeper hash vocabulary, direct child again) lets pass %s, "
+                  "expected the 2nd, 3rd and 4th" % (got if got is not None else outs,)))
     return obs
 
 
